@@ -169,7 +169,8 @@ def _setup_mimetypes(cfg, toks):
         from sharepoint2text.parsing.mime_types import MIME_TYPE_MAPPING
         mimes = sorted(MIME_TYPE_MAPPING)
         for i, t in enumerate(sorted(toks)):
-            mimetypes.add_type(mimes[(i * 7 + 3) % len(mimes)], "." + t, strict=True)
+            # every third registration is a NON-standard one (strict=False): the library asks the standard table only
+            mimetypes.add_type(mimes[(i * 7 + 3) % len(mimes)], "." + t, strict=(i % 3 != 1))
 
 
 def _case(s, mode, rng):
